@@ -17,10 +17,11 @@ MAX_PATHS = 5000
 
 
 class Path:
-    __slots__ = ("kind", "exc", "env", "trace", "node")
+    __slots__ = ("kind", "exc", "env", "trace", "node", "ret")
 
-    def __init__(self, kind, exc, env, trace, node=None):
+    def __init__(self, kind, exc, env, trace, node=None, ret=None):
         self.kind, self.exc, self.env, self.trace, self.node = kind, exc, env, trace, node
+        self.ret = ret          # what a seen-through helper returned on this path: an int / bool, a list of such (None = unknown), or None
 
     def __repr__(self):
         return f"<{self.kind} {self.exc or ''} {' '.join(self.trace)}>"
@@ -95,6 +96,14 @@ class Explorer:
                 return a - b
         return None
 
+    def const_of(self, e, env) -> Optional[int]:
+        """integer / boolean value of an expression over the tracked locals, if it has one"""
+        v = self.value(e, env)
+        if v is None:
+            t = self.test(e, env) if isinstance(e, (ast.Compare, ast.BoolOp, ast.UnaryOp, ast.Constant, ast.Name)) else None
+            v = int(t) if t is not None else None
+        return v
+
     def exc_name(self, e) -> str:
         return self.prog.exc_name(self.fn.module, e.func if isinstance(e, ast.Call) else e, self.fn.cls)
 
@@ -136,11 +145,11 @@ class Explorer:
                             pnames = pnames[1:]
                         cenv = {}
                         for pn, an in zip(pnames, c.args):
-                            v = self.value(an, p.env)
+                            v = self.const_of(an, p.env)
                             if v is not None:
                                 cenv[pn] = v
                         for kw in c.keywords:
-                            v = self.value(kw.value, p.env) if kw.arg else None
+                            v = self.const_of(kw.value, p.env) if kw.arg else None
                             if v is not None:
                                 cenv[kw.arg] = v
                         pos = a.posonlyargs + a.args
@@ -155,7 +164,14 @@ class Explorer:
                             self.fn = saved
                             self._depth -= 1
                         for q in sub:
-                            new.append(Path("normal", None, p.env, q.trace) if q.kind in ("normal", "return") else Path(q.kind, q.exc, p.env, q.trace, q.node))
+                            if q.kind in ("normal", "return"):
+                                rv = None
+                                if q.kind == "return" and isinstance(q.node, ast.Return) and q.node.value is not None:
+                                    rn = q.node.value
+                                    rv = [self.const_of(x, q.env) for x in rn.elts] if isinstance(rn, ast.Tuple) else self.const_of(rn, q.env)
+                                new.append(Path("normal", None, p.env, q.trace, ret=rv))
+                            else:
+                                new.append(Path(q.kind, q.exc, p.env, q.trace, q.node))
                     outs = new
                 continue
             new = []
@@ -299,6 +315,35 @@ class Explorer:
             e = dict(env)
             e[s.targets[0].id] = v
             return [Path("normal", None, e, trace)]
+        if isinstance(s, ast.Assign) and len(s.targets) == 1 and isinstance(s.value, (ast.Call, ast.Await)):
+            call = s.value.value if isinstance(s.value, ast.Await) else s.value
+            outs = self.effects(s, env, trace)
+            if isinstance(call, ast.Call) and any(p.kind == "normal" and p.ret is not None for p in outs):
+                tg = s.targets[0]
+                names = [t for t in (tg.elts if isinstance(tg, (ast.Tuple, ast.List)) else [tg])]
+                res = []
+                for p in outs:
+                    if p.kind != "normal":
+                        res.append(p)
+                        continue
+                    vals = p.ret if isinstance(p.ret, list) else [p.ret]
+                    e2 = dict(p.env)
+                    for i, t in enumerate(names):
+                        if not isinstance(t, ast.Name):
+                            continue
+                        v = vals[i] if p.ret is not None and i < len(vals) and len(vals) == len(names) else None
+                        if v is not None:
+                            e2[t.id] = v          # the helper's result is a constant on this path (a done flag, an attempt count)
+                        elif t.id in e2:
+                            if t.id in self.counters:
+                                raise AnalysisError(f"{self.fn.qual}: retry counter assigned a non-constant `{norm(s)}`")
+                            del e2[t.id]
+                    res.append(Path("normal", None, e2, p.trace))
+                ev = self.on_stmt(s) if self.on_stmt else None
+                if ev:
+                    evs = tuple(ev) if isinstance(ev, (list, tuple)) else (ev,)
+                    res = [Path(p.kind, p.exc, p.env, p.trace + (evs if p.kind == "normal" else ()), p.node) for p in res]
+                return res
         if isinstance(s, ast.Assert):
             return [Path("normal", None, env, trace)]
         if isinstance(s, (ast.Expr, ast.Assign, ast.AugAssign, ast.AnnAssign)):
